@@ -29,6 +29,23 @@ class Shims:
             self.entries.append((module, k, v))
         return self
 
+    def add_compiled_regexes(self, module):
+        """every module-level compiled pattern, or bound method of one (``re.compile(..).fullmatch``), is replaced by the same
+        pattern text re-compiled through ReShim -- whatever their names are in the current source, so a regex added to the
+        module by an edit is executed symbolically too instead of rejecting the proxy with a TypeError"""
+        import re as _re
+        from .reshim import ReShim
+        have = {(m, k) for m, k, _ in self.entries}
+        for k, v in list(vars(module).items()):
+            if (module, k) in have:
+                continue
+            if isinstance(v, _re.Pattern):
+                self.entries.append((module, k, ReShim.compile(v.pattern, v.flags & ~_re.UNICODE)))
+            elif isinstance(getattr(v, "__self__", None), _re.Pattern):
+                pat = v.__self__
+                self.entries.append((module, k, getattr(ReShim.compile(pat.pattern, pat.flags & ~_re.UNICODE), v.__name__)))
+        return self
+
     def describe(self) -> List[str]:
         return [f"{getattr(m, '__name__', type(m).__name__)}.{k}" for m, k, _ in self.entries]
 
@@ -115,6 +132,11 @@ class str_shim(metaclass=_Meta):
             return x
         if builtins.isinstance(x, SInt):
             return cur().render_int(x.e)
+        if not a and builtins.type(x).__module__ != "builtins":
+            # a user class whose __str__ hands back a proxy (e.g. baize URL over symbolic text): str() itself would reject it
+            r = builtins.type(x).__str__(x)
+            if builtins.isinstance(r, (SStr, builtins.str)):
+                return r
         return builtins.str(x, *a)
 
 
